@@ -722,10 +722,10 @@ func (vf *VerifyFunc) yield(st *State) {
 func (vf *VerifyFunc) chanOp(st *State, fr *Frame, ch *Val, op string, in ssa.Instruction) {
 	vf.yield(st)
 	if vf.nopanic || vf.fc != nil && vf.fc.Flags["nilchan"] {
-		st.check("nilchan", op+"@"+st.pos(in), "", op+" on nil channel blocks forever", st.pos(in), not(eq(ch.Tm, "0")))
+		st.check("nilchan", fmt.Sprintf("%s#%d", op, vf.eng.info(fr.fn).chanOrd[in]), "", op+" on nil channel blocks forever", st.pos(in), not(eq(ch.Tm, "0")))
 	}
 	if vf.fc != nil && vf.fc.Flags["nonblocking"] && len(st.frames) == 1 {
-		st.check("nonblock", op+"@"+st.pos(in), "C12", "blocking channel "+op+" in a function declared nonblocking", st.pos(in), "false")
+		st.check("nonblock", fmt.Sprintf("%s#%d", op, vf.eng.info(fr.fn).chanOrd[in]), "C12", "blocking channel "+op+" in a function declared nonblocking", st.pos(in), "false")
 	}
 }
 
@@ -741,7 +741,7 @@ func (vf *VerifyFunc) selectOp(st *State, fr *Frame, x *ssa.Select) *Val {
 		vf.yield(st)
 	}
 	if x.Blocking && vf.fc != nil && vf.fc.Flags["nonblocking"] && len(st.frames) == 1 {
-		st.check("nonblock", "select@"+st.pos(x), "C12", "blocking select in a function declared nonblocking", st.pos(x), "false")
+		st.check("nonblock", fmt.Sprintf("select#%d", vf.eng.info(fr.fn).chanOrd[x]), "C12", "blocking select in a function declared nonblocking", st.pos(x), "false")
 	}
 	fs := []*Val{{T: tt.At(0).Type(), S: SInt, Tm: idx}, st.freshVal(tt.At(1).Type(), "sel_ok")}
 	for i := 2; i < tt.Len(); i++ {
